@@ -562,7 +562,7 @@ Proof.
     split; [left; reflexivity|]. split; [reflexivity|]. split; [exact RC1|].
     split; [intros ->; exfalso; apply RC2; reflexivity|]. split; [intros _; left; reflexivity | intros; lia].
   - cbn [RSpec] in RS. cbn [RCap] in RC. destruct RC as (RC1 & RC2).
-    destruct RS as (R1 & R2 & R3 & R4 & R5 & R6 & R7).
+    destruct RS as (R1 & R2 & R3 & R4 & R5 & R6 & R7 & RB).
     replace (ret' <=? 0) with false by lia.
     assert (Hseg : seg vrd s0 (s0 + consumed') = load_list m src (Z.to_nat consumed')).
     { rewrite (seg_as_load _ m _ _ src) by first [lia | (intros i Hi; rewrite Evrd, kd_vrd_hi by lia; rewrite Es; apply k_vrd_src; [exact Hend | lia | lia])]. f_equal. lia. }
